@@ -1,9 +1,10 @@
 (* executable entry point for C28: family 0 = listen/remove/dispatch sequences (Events.v),
-   family 1 = exec_once trace acceptance (ExecOnce.v) *)
+   family 1 = exec_once trace acceptance (ExecOnce.v), family 2 = only_once wrapper trace acceptance
+   (ExecOnceWrap.v), family 3 = propagation histories with both registry maps (EventsProp.v) *)
 From Coq Require Import List ZArith Bool Arith.
 Import ListNotations.
 From SAV.base Require Import Tree.
-From SAV.event Require Import Events ExecOnce.
+From SAV.event Require Import Events ExecOnce ExecOnceWrap EventsProp.
 Open Scope Z_scope.
 
 Definition dec_target (k n : tree) : option target :=
@@ -69,6 +70,44 @@ Fixpoint run_idx (st : xstate) (tr : list ev) (k : Z) : Z * xstate :=
   | e :: r => match stepf st e with Some st' => run_idx st' r (k + 1) | None => (k, st) end
   end.
 
+(* ---- only_once traces: [2; retry; events] ---- *)
+Definition dec_wev (t : tree) : option wev :=
+  match t with
+  | L [I 0; I c] => Some (WEnter (Z.to_nat c))
+  | L [I 1; I c] => Some (WSkip (Z.to_nat c))
+  | L [I 2; I c; I x] => Some (WExit (Z.to_nat c) (negb (Z.eqb x 0)))
+  | _ => None
+  end.
+Fixpoint wrun_idx (retry : bool) (s : wstate) (tr : list wev) (k : Z) : Z * wstate :=
+  match tr with
+  | [] => (-1, s)
+  | e :: r => match wstep retry s e with Some s' => wrun_idx retry s' r (k + 1) | None => (k, s) end
+  end.
+
+(* ---- propagation histories: [3; ops] ---- *)
+Definition dec_pop (t : tree) : option pop :=
+  match t with
+  | L [I 0] => Some PNewInst
+  | L [I 2; n; f; i; p; o; nm; rv] =>
+      match as_nat n, as_nat f, as_bool i, as_bool p, as_bool o, as_bool nm, as_bool rv with
+      | Some n', Some f', Some i', Some p', Some o', Some nm', Some rv' =>
+          Some (PListen n' f' {| fl_insert := i'; fl_prop := p'; fl_once := o'; fl_wrap := nm' || rv' |})
+      | _, _, _, _, _, _, _ => None
+      end
+  | L [I 3; n; f] => match as_nat n, as_nat f with Some n', Some f' => Some (PRemove n' f') | _, _ => None end
+  | L [I 4; n; f] => match as_nat n, as_nat f with Some n', Some f' => Some (PContains n' f') | _, _ => None end
+  | L [I 5; n] => option_map PDispatch (as_nat n)
+  | L [I 6; j; i; p] =>
+      match as_nat j, as_nat i, as_bool p with Some j', Some i', Some p' => Some (PUpdate j' i' p') | _, _, _ => None end
+  | L [I 7; nf] => option_map PSnapshot (as_nat nf)
+  | _ => None
+  end.
+Definition enc_pout (o : pout) : tree :=
+  match o with
+  | POut x => enc_out x
+  | PMaps f r => L [I 6; L (map of_bool f); L (map of_bool r)]
+  end.
+
 Definition run_case (t : tree) : tree :=
   match t with
   | L [I 0; L ops] =>
@@ -81,6 +120,18 @@ Definition run_case (t : tree) : tree :=
       | Some tr =>
           let '(k, (s, _)) := run_idx (xinit (Z.to_nat n)) tr 0 in
           L [I k; of_bool (f_once s); of_bool (f_sync s); of_nat (n_run s); of_nat (n_run_sync s)]
+      | None => bad_input
+      end
+  | L [I 2; I r; L evs] =>
+      match all_some (map dec_wev evs) with
+      | Some tr =>
+          let '(k, s) := wrun_idx (negb (Z.eqb r 0)) winit tr 0 in
+          L [I k; of_bool (w_armed s); of_nat (w_enter s)]
+      | None => bad_input
+      end
+  | L [I 3; L ops] =>
+      match all_some (map dec_pop ops) with
+      | Some os => L (map enc_pout (snd (prun pinit os)))
       | None => bad_input
       end
   | _ => bad_input
